@@ -278,7 +278,9 @@ def gen_cases(ctx, rng, n_extra):
         if not shapes:
             continue
         base = rng.choice(shapes)
-        u = Unser(rng.choice(["object", "lock", "builtin", "event-method"]))
+        # the failure of dumps has different classes: TypeError / ValueError / SerializeError for the first four,
+        # AttributeError for the unfilled slot, RuntimeError for the failing __getstate__
+        u = Unser(rng.choice(["object", "lock", "builtin", "event-method", "slots-unset", "getstate-raises"]))
         where = rng.choice(["attr", "attr-nested", "arg"])
         args = list(base)
         attrs = gen_attrs(rng, ser, cls, tuple(args))
